@@ -151,6 +151,16 @@ pub fn run(ctx: &Ctx) -> CheckOutput {
                         JobOut { stats: st, viols: sink.take(), samples: vec![json!({"explorer":"TREE","scalar":"f64","view":spec.name(),"alphabet":alpha,"depth":depth})] }
                     }));
                 }
+                {
+                    let (spec, alpha) = (spec.clone(), alpha.clone());
+                    let cap = if quick { 60_000 } else { 1_000_000 };
+                    jobs.push(Box::new(move || {
+                        let mut st = Stats::default();
+                        let sink = Sink::new();
+                        let closed = ref_closure::<f64>("C06", &spec, &alpha, n, cap, 40, &mut st, &sink, &|h, hf, v, out| oracle::<f64>(kind, n, h, hf, v, out));
+                        JobOut { stats: st, viols: sink.take(), samples: vec![json!({"explorer":"CLOSURE","scalar":"f64","view":spec.name(),"alphabet":alpha,"closed":closed})] }
+                    }));
+                }
                 if kind != Kind::CenterOfGravity {
                     let alpha = alpha.clone();
                     jobs.push(Box::new(move || {
